@@ -155,3 +155,14 @@ func ModelIOCopy(dst io.Writer, src io.Reader) (int64, error) {
 func ModelEnmimeReadEnvelope(r io.Reader) (*enmime.Envelope, error) {
 	return &enmime.Envelope{Root: &enmime.Part{Header: textproto.MIMEHeader{}}}, nil
 }
+
+// gorilla/mux keeps the route variables of a request in the request's context; the model keeps the
+// variables of the one request in flight.
+var muxCurVars map[string]string
+
+func ModelMuxSetURLVars(r *http.Request, vars map[string]string) *http.Request {
+	muxCurVars = vars
+	return r
+}
+
+func ModelMuxVars(r *http.Request) map[string]string { return muxCurVars }
